@@ -1,8 +1,10 @@
+mod cabi;
 mod gen;
 mod msg;
 mod ops;
 mod rng;
 mod script;
+mod threads;
 
 use std::io::{BufRead, Write};
 
